@@ -260,7 +260,7 @@ cases per wrapper and per receiver class."
         "Now::* is compared structurally: same zone, reading within [Now::instant() before, Now::instant() after] as the core converts those two instants".into(),
     ];
     let tier = ctx.tier;
-    let per_fn = tier.pick(300, 9_000);
+    let per_fn = tier.pick(2_500, 40_000);
 
     // ---- Part A
     let n_a = per_fn * compiled::NAMES.len() as u64;
